@@ -158,7 +158,8 @@ const MB_WORDS: &[&str] = &["café", "naïve", "日本語", "→", "🎉", "übe
 const LT_WORDS: &[&str] = &["a < b", "x<0 and y>1", "1 <2", "<<", "i<", " < ", "a<=b", "<3"];
 const ENT_WORDS: &[&str] = &["&amp;", "&lt;b&gt;", "&nbsp;", "&#169;", "&quot;x&quot;", "&noSuch;", "&"];
 pub const FLOW_TAGS: &[&str] = &["div", "span", "section", "article", "main", "nav", "ul", "li", "a", "b", "i", "em", "h1", "p", "footer", "aside"];
-const VOID_TAGS: &[&str] = &["img", "br", "input", "hr", "meta", "link"];
+/// the void elements that may stand in flow content (col belongs to tables, which the vocabulary avoids)
+const VOID_TAGS: &[&str] = &["img", "br", "input", "hr", "wbr", "embed", "param", "source", "track", "area"];
 const RAW_TAGS: &[&str] = &["script", "style", "textarea", "title", "noscript", "iframe", "xmp"];
 const ATTR_NAMES: &[&str] = &["class", "id", "href", "data-x", "title", "name", "content", "lang", "hidden"];
 const ATTR_VALUES: &[&str] = &["a", "main", "x y", "page", "/p?q=1&r=2", "description", "b c", "1", "", "k"];
@@ -415,7 +416,7 @@ fn gen_flow(rng: &mut Rng, o: &GenOpts, b: &mut Budget, depth: usize, out: &mut 
                     end_tag: String::new(),
                 }));
             } else {
-                let tag = rng.pick_str(&VOID_TAGS[..4]);
+                let tag = rng.pick_str(VOID_TAGS);
                 let (st, _) = case_tag(rng, o, &tag);
                 out.push(Node::Elem(Elem {
                     tag: st,
@@ -486,7 +487,7 @@ pub fn gen_document(rng: &mut Rng, o: &GenOpts) -> Vec<Node> {
     for _ in 0..hn {
         let w = rng.below(10);
         if w < 3 {
-            let tag = rng.pick_str(&["meta", "link"]);
+            let tag = rng.pick_str(&["meta", "link", "meta", "link", "base"]);
             let mut attrs = gen_attrs(rng, o);
             if tag == "meta" && rng.coin() {
                 attrs = vec![
